@@ -46,6 +46,8 @@ def success_case(draw):
     if kind in ("protein", "mixed"):
         d = draw(e2e.structure(max_chains=3, nmax=6, nmin=2, variants=0, oxt=True, contact=draw(st.booleans()),
                                hyd=draw(st.sampled_from(["none", "none", "all"]))))  # fmt: skip
+        for ch_ in d["chains"]:
+            ch_.pop("extra", None)  # success side: complete STANDARD residues only (no undefined atoms)
         desc.update(d)
     if kind in ("na", "mixed"):
         from . import c02
